@@ -356,6 +356,16 @@ ROUND11 = {
  "C19": "Routes tags_edited (a tag added in place after printing) and +again (received twice, the first receiver edits its copy).",
  "C20": "A method whose answer never arrives (the connection is lost after it ran).",
 }
+ROUND12 = {
+ "C05": "Attribute requests with a proxy as the attribute name; an exception the traceback formatter stumbles over.",
+ "C08": "Wrong first messages written with an unknown serializer id.",
+ "C13": "A resource with parts that only the whole holds on to.",
+ "C14": "The removal of 520 names without any failure as well.",
+ "C15": "A listing over 300 names overtaken by two removals under delay-bounded schedules.",
+ "C16": "Chosen ids that are near misses of the daemon's own id.",
+}
+for _k, _v in ROUND12.items():
+    ROUND11[_k] = (ROUND11[_k] + " " + _v) if _k in ROUND11 else _v
 for _k, _v in ROUND11.items():
     ROUND10[_k] = (ROUND10[_k] + " " + _v) if _k in ROUND10 else _v
 for _k, _v in ROUND10.items():
